@@ -397,7 +397,7 @@ impl Property for C11 {
         }
     }
     fn rule(&self) -> &'static str {
-        "component runs: TAP images (all byte values, blocks crossing the 128-byte refill at every offset class, flag 0x00 and others, chunking asset) played on the real Tap with time partitioned into seeded 1..16 T steps (plus constant-step and zero-step runs), every pulse and block compared with RefTape; system runs (1 in 26): twin machines, fast load vs real ROM loader in real time, each request issued in the pause before its block; distinct = (byte value, refill-offset class, step pattern class) + (system outcome classes)"
+        "component runs: TAP images (all byte values, blocks crossing the 128-byte refill at every offset class, flag 0x00 and others, chunking asset) played on the real Tap with time partitioned into seeded 1..16 T steps (plus constant-step and zero-step runs), every pulse and block compared with RefTape; system runs (1 in 26): twin machines, fast load vs real ROM loader in real time, each request issued in the pause before its block; component runs may take part of the first block through next_block/next_block_byte before PLAY; one run per batch plays three 64 KiB blocks (more than 2^32 T); distinct = (byte value, refill-offset class, step pattern class) + (system outcome classes)"
     }
     fn state_measure(&self) -> &'static str {
         "none (see distinct)"
